@@ -10,7 +10,8 @@ VARIABLE seen
 SeenInit == seen = [c \in Conn |-> [ch \in Char |-> 2]]
 SeenNext == seen' = [c \in Conn |-> [ch \in Char |->
                        IF last'[1] \in {"Connect", "Close"} /\ last'[2] = c THEN 2
-                       ELSE IF got'[c] # {} /\ (\E e \in got'[c] : e[1] = ch) THEN (CHOOSE e \in got'[c] : e[1] = ch)[2]
+                       ELSE IF \E i \in 1..Len(got'[c]) : got'[c][i][1] = ch
+                            THEN got'[c][CHOOSE i \in 1..Len(got'[c]) : got'[c][i][1] = ch /\ \A j \in (i + 1)..Len(got'[c]) : got'[c][j][1] # ch][2]
                        ELSE seen[c][ch]]]
 SeenView == <<open, subs, val, want, seen>>
 
@@ -18,7 +19,7 @@ HInit == GInit /\ SeenInit /\ hist = <<>> /\ bad = FALSE /\ pre = <<>>
 Used(c) == \E i \in 1..Len(hist) : hist[i].c = c
 Rec(l, g) == [a |-> l[1], c |-> IF Len(l) >= 2 THEN l[2] ELSE "none",
               ch |-> IF Len(l) >= 3 THEN l[3] ELSE "none", v |-> IF Len(l) >= 4 THEN l[4] ELSE 0,
-              exp |-> [c \in Conn |-> Cardinality(g[c])]]
+              exp |-> [c \in Conn |-> Len(g[c])]]
 \* the racing pair of writes is replayed by a dedicated history (two goroutines), not as a step of the generated words
 HNext == /\ GNext /\ SeenNext /\ pre' = SeenView /\ last'[1] # "RemoteRace"
          /\ (last'[2] = "c2" => Used("c1")) /\ (last'[2] = "c3" => Used("c2"))
